@@ -207,13 +207,26 @@ def r06cdf(repo, chk):
             if norm(t).endswith("use_push_pop_functions"):
                 return p
         return None
+
+    def names_ra(e, at_call):
+        """the operand is the register ra: the text 'ra', or a local name whose every reaching definition builds a register called 'ra'"""
+        if isinstance(e, ast.Constant):
+            return e.value == "ra"
+        if isinstance(e, ast.Call):
+            a0 = e.args[0] if e.args else next((k.value for k in e.keywords if k.arg in ("name", "code_expr")), None)
+            return isinstance(a0, ast.Constant) and a0.value == "ra"
+        if isinstance(e, ast.Name):
+            ids = live_ids(cfg, at_call)
+            ds = rd.at(ids[0], e.id) if ids else []
+            return bool(ds) and all(d.kind == "assign" and not d.index and d.value is not None and not isinstance(d.value, ast.Name) and names_ra(d.value, at_call) for d in ds)
+        return False
     by = {}
     for s in sites:
         ops = s.opcodes
         if ops is TOP or len(ops) != 1:
             continue
         op = next(iter(ops))
-        is_ra = (s.input_exprs and norm(s.input_exprs[0]) == "ra") or (s.has_output and norm(s.output_expr) == "ra")
+        is_ra = (s.input_exprs and names_ra(s.input_exprs[0], s.call)) or (s.has_output and names_ra(s.output_expr, s.call))
         if op in ("push", "pop") and is_ra:
             by.setdefault(pol(s), {}).setdefault(op, []).append(s)
     if not by:
